@@ -10,6 +10,8 @@ draw was made on; here the scheduler side is decided.
 """
 from __future__ import annotations
 
+import contextlib
+import io
 import random
 
 import repex_tie as T
@@ -124,6 +126,269 @@ def one(ctx, params, with_model, outs):
     return chain
 
 
+# ----------------------------------------------------------------------------- engine set-up of select_shoot
+ENG_NAMES = ["engine", "engine0", "engine1"]
+
+
+def _sid(gen):
+    ss = gen.bit_generator._seed_seq
+    return f"{int(ss.entropy)}:" + ",".join(str(int(k)) for k in ss.spawn_key)
+
+
+class _StubEngine:
+    """an engine object of the worker process: records what select_shoot does to it"""
+
+    def __init__(self, name, idx):
+        self.name, self.idx, self.calls = name, idx, []
+
+    def set_mdrun(self, pens):
+        self.calls.append("set_mdrun")
+
+    def clean_up(self):
+        self.calls.append("clean_up")
+
+
+def _job_layouts(rng, n_inst, quick):
+    """eng_idx layouts {ens_num: {engine name: instance}} of one job: single ensembles and zero swaps; shared
+    and distinct engine objects; one or several engine types per ensemble (quantis style)"""
+    def idx():
+        return rng.randrange(n_inst)
+    out = []
+    for name in ENG_NAMES:
+        out.append({1: {name: idx()}})
+    out.append({-1: {"engine0": idx()}})
+    out.append({2: {"engine": idx(), "engine1": idx()}})
+    i = idx()
+    out.append({-1: {"engine": i}, 0: {"engine": i}})                       # one shared object
+    out.append({-1: {"engine0": idx()}, 0: {"engine": idx()}})              # [0-] on its own engine
+    out.append({-1: {"engine0": idx(), "engine1": idx()}, 0: {"engine": idx()}})
+    i = idx()
+    out.append({-1: {"engine0": idx(), "engine": i}, 0: {"engine": i, "engine1": idx()}})   # one shared, two own
+    if not quick:
+        out.append({-1: {"engine": 0}, 0: {"engine": n_inst - 1}})         # same type, different instances
+    return out
+
+
+def engine_setup_stub(ctx):
+    """The set-up loop of the REAL select_shoot on stub engine objects (the moves themselves are replaced by
+    probes that look at `engine.rgen` at the moment the move starts): a sequence of jobs in one worker process,
+    so that every engine object carries a stale generator of an earlier job when the next job arrives.
+    Predicate per job: every engine object the job uses holds an engine stream of THIS job — exactly its own
+    ensemble's `rgen-eng` when only one picked ensemble lists the object.  Tie: the model's
+    `assignEngineStreams` through the driver op `engsetup`."""
+    import numpy as np
+    import importlib.util  # noqa: F401
+    import infretis.core.tis as tis
+
+    saved = {k: getattr(tis, k) for k in ("ENGINES", "shoot", "wire_fencing", "retis_swap_zero", "quantis_swap_zero")}
+    seen_at_move = {}
+
+    class _P:  # a path stand-in
+        path_number = 0
+
+    def probe_single(ens_set, path, engine, start_cond=("L",)):
+        seen_at_move["single"] = engine
+        return True, _P(), "ACC"
+
+    def probe_swap(picked, engines):
+        seen_at_move["swap"] = {k: list(v) for k, v in engines.items()}
+        return True, [_P(), _P()], "ACC"
+
+    lines, reals, cases = [], [], []
+    try:
+        tis.shoot = tis.wire_fencing = probe_single
+        tis.retis_swap_zero = tis.quantis_swap_zero = probe_swap
+        for n_inst in ((1, 2) if ctx.quick else (1, 2, 3)):
+            for seed in ((7,) if ctx.quick else (0, 7)):
+                tis.ENGINES = {name: [_StubEngine(name, i) for i in range(n_inst)] for name in ENG_NAMES}
+                layouts = _job_layouts(ctx.rng, n_inst, ctx.quick)
+                order = layouts + ctx.rng.sample(layouts, len(layouts))
+                for k, layout in enumerate(order):
+                    quantis = any(len(v) > 1 for v in layout.values()) and len(layout) == 2 and ctx.rng.random() < 0.5
+                    picked = {}
+                    for j, (ens_num, eng_idx) in enumerate(layout.items()):
+                        gen = np.random.default_rng(np.random.SeedSequence(seed, spawn_key=(k, j, 0)))
+                        picked[ens_num] = {
+                            "ens": {"mc_move": "sh" if ens_num % 2 else "wf", "ens_name": f"{ens_num:03d}",
+                                    "start_cond": ("L",), "tis_set": {"quantis": quantis}, "rgen": None},
+                            "traj": _P(), "pn_old": 0, "eng_idx": dict(eng_idx), "rgen-eng": gen,
+                        }
+                    rep = {"engine_setup": "stub", "instances": n_inst, "seed": seed, "job": k,
+                           "layout": {str(e): v for e, v in layout.items()}}
+                    seen_at_move.clear()
+                    try:
+                        tis.select_shoot(picked)
+                    except Exception as e:  # noqa: BLE001
+                        ctx.fail("C07:select_shoot:raised", f"select_shoot raised {type(e).__name__}: {e} on {rep}", rep)
+                        continue
+                    own = {id(p["rgen-eng"]): (e, _sid(p["rgen-eng"])) for e, p in picked.items()}
+                    listers = {}
+                    for ens_num, pens in picked.items():
+                        for name, i in pens["eng_idx"].items():
+                            listers.setdefault((name, i), []).append(ens_num)
+                    for (name, i), who in listers.items():
+                        eng = tis.ENGINES[name][i]
+                        ctx.count(1, c07_engine_setup="zero-swap" if len(picked) == 2 else "single",
+                                  c07_engine_objects="shared" if len(who) > 1 else "own")
+                        ctx.distinct(("engsetup", n_inst, tuple(sorted((str(e), tuple(sorted(v.items()))) for e, v in layout.items()))))
+                        g = getattr(eng, "rgen", None)
+                        if g is None:
+                            ctx.fail("C07:select_shoot:engine-without-job-stream",
+                                     f"job {k}: engine object {name}[{i}] (ensembles {who}) has no rgen when the move starts",
+                                     dict(rep, engine=[name, i]))
+                        elif id(g) not in own:
+                            ctx.fail("C07:select_shoot:engine-keeps-other-jobs-stream",
+                                     f"job {k}: engine object {name}[{i}] (ensembles {who}) starts the move with the "
+                                     f"generator {_sid(g)} of another job, not one of {sorted(s for _, s in own.values())}",
+                                     dict(rep, engine=[name, i], holds=_sid(g)))
+                        elif len(who) == 1 and own[id(g)][0] != who[0]:
+                            ctx.fail("C07:select_shoot:engine-holds-wrong-entry",
+                                     f"job {k}: engine object {name}[{i}] serves only ensemble {who[0]} but holds the "
+                                     f"stream {_sid(g)} of ensemble {own[id(g)][0]}", dict(rep, engine=[name, i]))
+                        if eng.calls[-2:] != ["set_mdrun", "clean_up"]:
+                            ctx.hit("c07_engine_setup:no-set_mdrun/clean_up")
+                    # what the move functions were handed must be these very objects
+                    handed = ([seen_at_move["single"]] if "single" in seen_at_move
+                              else [e for v in seen_at_move.get("swap", {}).values() for e in v])
+                    for eng in handed:
+                        if (eng.name, eng.idx) not in listers:
+                            ctx.fail("C07:select_shoot:foreign-engine", f"job {k}: move got engine {eng.name}[{eng.idx}] "
+                                     "that the job does not list", rep)
+                    # tie: the whole table of the process after the job
+                    lines.append("engsetup " + " ".join(
+                        f"{seed}/{k},{j},0/" + (",".join(f"{ENG_NAMES.index(n)}:{i}" for n, i in p["eng_idx"].items()) or "-")
+                        for j, p in enumerate(picked.values())))
+                    reals.append({f"{ENG_NAMES.index(n)}:{e.idx}": _sid(e.rgen)
+                                  for n, lst in tis.ENGINES.items() for e in lst if hasattr(e, "rgen")})
+                    cases.append(rep)
+                lines.append("engsetup-reset")
+                reals.append(None)
+                cases.append(None)
+    finally:
+        for k, v in saved.items():
+            setattr(tis, k, v)
+    if ctx._driver_ok and lines:
+        # the driver keeps one table per process: one driver run per (instances, seed) block
+        block, breal, bcase = [], [], []
+        for ln, rl, cs in zip(lines, reals, cases):
+            if ln == "engsetup-reset":
+                for ans, rl2, cs2 in zip(ctx.driver(block), breal, bcase):
+                    model = dict(x.split("=") for x in ans.split(";") if x)
+                    if model != rl2:
+                        ctx.disagree(cs2, rl2, model, "engine table after select_shoot vs assignEngineStreams")
+                block, breal, bcase = [], [], []
+            else:
+                block.append(ln), breal.append(rl), bcase.append(cs)
+
+
+def engine_setup_real(ctx):
+    """End to end: the real scheduler objects (setup_config / setup_internal / REPEX_state / run_md) on the
+    TurtleMD double well with `ensemble_engines` giving [0-] its own engine section, jobs run one after the
+    other in this process.  Per job: it must not fail for want of a generator; every engine object it used
+    holds one of ITS `rgen-eng` generators; and no generator that belongs to an EARLIER job was advanced."""
+    import copy
+    import os
+    import shutil
+    import tempfile
+    from pathlib import Path
+    import importlib.util  # noqa: F401
+    import tomli
+    import tomli_w
+    import infretis
+    import infretis.core.tis as tis
+    from infretis.setup import setup_config, setup_internal
+
+    root = Path(infretis.__file__).resolve().parent.parent
+    example = root / "examples" / "turtlemd" / "double_well"
+    toml = root / "test" / "simulations" / "data" / "wf.toml"
+    if not example.exists() or not toml.exists():
+        ctx.extra["c07_engine_setup_real"] = "example files not found"
+        return
+    cwd0 = os.getcwd()
+    saved_engines = tis.ENGINES
+    plans = [(1, ctx.rng.randrange(1, 50))] if ctx.quick else [(1, ctx.rng.randrange(1, 50)), (2, ctx.rng.randrange(1, 50))]
+    for workers, seed in plans:
+        tmp = tempfile.mkdtemp(prefix="c07eng2-", dir="/var/tmp")
+        rep0 = {"engine_setup": "real-turtlemd", "workers": workers, "seed": seed,
+                "ensemble_engines": "[0-] on its own section engine0"}
+        try:
+            os.chdir(tmp)
+            shutil.copytree(example / "load_copy", "load")
+            shutil.copy(example / "orderp.py", ".")
+            with open(toml, "rb") as fh:
+                config = tomli.load(fh)
+            config["runner"]["workers"] = workers
+            config["simulation"]["steps"] = 70
+            config["simulation"]["seed"] = seed
+            config["engine0"] = copy.deepcopy(config["engine"])
+            n_ens = len(config["simulation"]["interfaces"])
+            config["simulation"]["ensemble_engines"] = [["engine0"]] + [["engine"] for _ in range(n_ens - 1)]
+            with open("infretis.toml", "wb") as fh:
+                tomli_w.dump(config, fh)
+            with contextlib.redirect_stdout(io.StringIO()):   # the TurtleMD engine prints a reminder
+                config = setup_config("infretis.toml")
+                md_items, state = setup_internal(config)
+            owned, pending = [], []
+            ordinal, n_swaps = 0, 0
+
+            def issue(items):
+                nonlocal ordinal
+                items = state.prep_md_items(items)
+                items["c07_ordinal"] = ordinal
+                ordinal += 1
+                pending.append(items)
+
+            while state.initiate():
+                issue(copy.deepcopy(md_items))
+            while state.loop() and n_swaps < 3:
+                job = pending.pop(ctx.rng.randrange(len(pending)))
+                num = job["c07_ordinal"]
+                ens_nums = list(job["ens_nums"])
+                mine = []
+                for ens_num, pens in job["picked"].items():
+                    mine.append((f"engine stream of ensemble {ens_num}", pens["rgen-eng"]))
+                    mine.append((f"move stream of ensemble {ens_num}", pens["ens"]["rgen"]))
+                engs = {e: dict(job["picked"][e]["eng_idx"]) for e in ens_nums}
+                rep = dict(rep0, job=num, ensembles=ens_nums, engines={str(k): v for k, v in engs.items()})
+                own_eng = {id(p["rgen-eng"]) for p in job["picked"].values()}
+                try:
+                    with contextlib.redirect_stdout(io.StringIO()):   # the TurtleMD engine prints a reminder
+                        result = tis.run_md(job)
+                except ValueError as e:
+                    ctx.fail("C07:select_shoot:engine-without-job-stream",
+                             f"job {num} (ensembles {ens_nums}, engines {engs}) failed: {e}", rep)
+                    break
+                ctx.count(1, c07_engine_setup_real="zero-swap" if len(ens_nums) == 2 else "single")
+                n_swaps += len(ens_nums) == 2
+                for ens_num, pens in job["picked"].items():
+                    for name, i in pens["eng_idx"].items():
+                        g = getattr(tis.ENGINES[name][i], "rgen", None)
+                        if g is None or id(g) not in own_eng:
+                            ctx.fail("C07:select_shoot:engine-keeps-other-jobs-stream",
+                                     f"job {num} (ensembles {ens_nums}): engine object {name}[{i}] used for ensemble "
+                                     f"{ens_num} holds " + ("no generator" if g is None else f"the generator {_sid(g)}")
+                                     + " instead of one of the job's engine streams "
+                                     f"{sorted(_sid(p['rgen-eng']) for p in job['picked'].values())}", dict(rep, engine=[name, i]))
+                for num0, label, gen, snap in owned:
+                    if gen.bit_generator.state != snap:
+                        ctx.fail("C07:engine-draws-from-earlier-jobs-stream",
+                                 f"job {num} (ensembles {ens_nums}, engines {engs}) drew random numbers from the {label} "
+                                 f"({_sid(gen)}) of the earlier job {num0}", dict(rep, earlier_job=num0, stream=_sid(gen)))
+                        break
+                owned.extend((num, lab, gen, copy.deepcopy(gen.bit_generator.state)) for lab, gen in mine)
+                returned = state.treat_output(result)
+                if state.cstep + state.workers <= state.tsteps:
+                    issue(returned)
+            ctx.hit(f"c07_engine_setup_real:zero_swaps={min(n_swaps, 3)}")
+            ctx.distinct(("engsetup-real", workers, seed))
+        except Exception as e:  # noqa: BLE001  (infrastructure of the example, not the property)
+            ctx.extra.setdefault("c07_engine_setup_real_errors", []).append(f"{type(e).__name__}: {e}")
+        finally:
+            os.chdir(cwd0)
+            tis.ENGINES = saved_engines
+            shutil.rmtree(tmp, ignore_errors=True)
+
+
 def run(ctx):
     rng = ctx.rng
     ctx.rule = ("every (move, engine) stream handed to a job in scheduler-shaped histories of the real REPEX_state: seeds "
@@ -151,6 +416,9 @@ def run(ctx):
         run_c07_engine_streams(ctx)
     except ImportError as e:  # pragma: no cover
         ctx.extra["c07_engine_streams"] = f"not available: {e}"
+    # the set-up of the engines of a job in select_shoot: which engine object gets which stream
+    engine_setup_stub(ctx)
+    engine_setup_real(ctx)
     ctx.assumptions += [
         "numpy: streams with different (entropy, spawn_key) are independent, equal ones identical (not modelled)",
         "identity of a stream = (SeedSequence.entropy, spawn_key) read from the generator objects inside md_items",
